@@ -225,7 +225,26 @@ class C31(OpMachine):
             raise Violation("C31/engine-raises", "dis_multiblock raised %s: %s" % (type(e).__name__, str(e)[:120]), facts)
         w.probe("worklist_choice_points", counter.get("choices", 0))
         shape = self._shape(loc_db, asmcfg)
-        log.add("shape", shape)
+        # The exploration order of dis_multiblock itself (iteration over a block's constraint set, another
+        # identity-hashed set that no seam controls) legitimately decides the result in two situations:
+        # when blocs_wd stops the exploration, and when instruction streams overlap (whichever stream is
+        # decoded first owns the shared bytes).  The structural clauses are judged on whatever graph comes
+        # out; the graph itself is then neither logged nor compared between orders.
+        byte_owner = {}
+        for b in asmcfg.blocks:
+            for l in b.lines:
+                for k in range(1, l.l):
+                    byte_owner[l.offset + k] = l.offset
+        dests = set()
+        for b in asmcfg.blocks:
+            for c in b.bto:
+                dests.add(loc_db.get_location_offset(c.loc_key))
+        order_sensitive = (cfg["blocs_wd"] is not None and ncalls >= cfg["blocs_wd"]) or any(d in byte_owner for d in dests)
+        if order_sensitive:
+            w.probe("exploration_order_sensitive")
+            log.add("shape not logged: exploration-order sensitive")
+        else:
+            log.add("shape", shape)
         if m.mn.delayslot if hasattr(m.mn, "delayslot") else False:
             w.probe("delayslot_arch")
         self._check_graph(w, cfg, m, attrib, loc_db, bs, asmcfg, ncalls, facts)
@@ -238,7 +257,7 @@ class C31(OpMachine):
             raise Violation("C31/order-dependent", "second work-list order raised %s" % type(e).__name__, facts)
         shape2 = self._shape(loc_db2, asmcfg2)
         w.probe("second_order_compared")
-        if shape2 != shape:
+        if shape2 != shape and not order_sensitive:
             raise Violation("C31/order-dependent", "two work-list orders give different graphs: %s vs %s"
                             % (self._diff(shape, shape2), ""), facts)
         if cfg["merge"]:
@@ -302,7 +321,9 @@ class C31(OpMachine):
                     w.probe("split_dis_hit")
                 prev = line
             if cfg["lines_wd"] is not None:
-                if len(b.lines) > cfg["lines_wd"]:
+                # a branch is never separated from its delay slot: the slot may exceed the limit
+                slot_extra = b.lines[0].delayslot if any(l.breakflow() for l in b.lines[-1 - b.lines[0].delayslot:]) else 0
+                if len(b.lines) > cfg["lines_wd"] + slot_extra:
                     raise Violation("C31/option-ignored", "block %#x has %d instructions, lines_wd is %d"
                                     % (boff, len(b.lines), cfg["lines_wd"]), facts)
                 if len(b.lines) == cfg["lines_wd"]:
